@@ -483,9 +483,10 @@ func (c *CEnv) sel(v cv, field string) cv {
 		}
 	case *IfaceV:
 		// select through a known dynamic type
-		if !x.Sym && x.Typ != nil {
+		if !x.Sym && x.Typ != nil && !strings.HasPrefix(field, "as_") && !strings.HasPrefix(field, "is_") {
 			return c.sel(cv{V: x.V, T: x.Typ}, field)
 		}
+		return c.sel(cv{V: c.x.e.ifaceDyn(st, x)}, field)
 	case T:
 		// datatype term
 		if fs, ok := c.x.e.dtFields[x.So]; ok {
